@@ -61,6 +61,12 @@ structure Conf where
   canary : String
   deriving DecidableEq, Repr
 
+/-- `NewGatewayTrafficRouting`: `true` = the constructor returns an error — the canary Service name equals the
+    stable Service name.  The builders below tell the canary backendRef from the stable one by the Service name;
+    without a canary Service of its own (`disableGenerateCanaryService`, TrafficRouting CR) the user's own
+    backendRef would be taken for the canary ref and dropped by `Finalise`. -/
+def Conf.refused (c : Conf) : Bool := c.canary == c.stable
+
 /-- result of the builder: the desired rules, or a Go panic (nil-pointer / index) -/
 inductive Out where
   | ok (rules : List Rule)
